@@ -3,7 +3,7 @@
    check_case: the model computes what the implementation did.
    spec_case : what the implementation did satisfies the property, judged WITHOUT the automata:
                from the packets the clients sent and the bytes the handlers wrote alone. *)
-From Sdns Require Export Common.Base Gen.C10 C10.Model C10.ModelStream C10.ModelShare.
+From Sdns Require Export Common.Base Gen.C10 C10.Model C10.ModelStream C10.ModelShare C10.ModelPool.
 Open Scope N_scope.
 
 (* byte strings travel run-length encoded: (count, byte) *)
@@ -30,6 +30,12 @@ Inductive uopN :=
 (* observed slab at the end: state, txLen, written, replay, rxLen, rawSALen != 0 *)
 Definition slab_obs := (N * N * bool * bool * N * bool)%type.
 
+(* one connection of a sequence served on one engine: did it run on the pooled stream the
+   previous connection handed back; then the fields of CaseConn *)
+Inductive connrec :=
+  CR (reused : bool) (frames : list rle) (junk : rle) (scripts : list (N * scriptN)) (reads : list N)
+     (budgets : list N) (arms : list bool) (writes : list rle).
+
 Inductive case :=
   (* sequential operations on the real udpEngine pieces: per client address the datagrams it
      received in order; the slabs at the end; did anything panic *)
@@ -43,9 +49,12 @@ Inductive case :=
   (* a pooled chain's writer across requests: Reset(transport) / write; observed emissions
      (transport, bytes) per operation (None: nothing reached a transport) *)
 | CaseWriter (ops : list (option N * rle)) (obs : list (option (N * rle)))
-  (* n waiters of one shared lookup: result id/body, waiter ids, shared flag; observed
-     (id, body) each waiter returned, and whether all returned messages are distinct objects *)
-| CaseShare (rid : N) (body : rle) (ids : list N) (shared : bool) (got : list (N * rle)) (distinct : bool).
+  (* connections served one after the other by one engine (pooled tcpStream and slabs) *)
+| CaseConnSeq (conns : list connrec)
+  (* n waiters of one shared lookup: result id/body, waiter ids, shared flag, what each waiter's
+     caller appended to ITS message right after the return; observed (id, body) each waiter
+     holds when all are done, and whether all returned messages are distinct objects *)
+| CaseShare (rid : N) (body : rle) (ids : list N) (shared : bool) (edits : list rle) (got : list (N * rle)) (distinct : bool).
 
 (* ------------------------------------------------------------------ helpers *)
 Fixpoint list_eqb {A B} (eqb : A -> B -> bool) (a : list A) (b : list B) : bool :=
@@ -160,6 +169,29 @@ Definition opt_emit_eqb (a : option (N * list byte)) (b : option (N * rle)) : bo
 Definition all_waiters_done (s : lstate) : list (option nat) :=
   map (fun w => match snd w with G2 p => Some p | _ => None end) (l_waiters s).
 
+(* one connection judged on its own (see spec_case) *)
+Definition conn_spec (frames : list rle) (junk : rle) (scripts : list (N * scriptN)) (budgets : list N)
+                     (arms : list bool) (writes : list rle) : bool :=
+  let wire := concat (map unrle writes) in
+  let '(fs, rest) := parse_stream wire in
+  let scs := conn_scripts scripts in
+  let per_frame := map (fun r => let rx := unrle r in (rx, script_of scs rx)) frames in
+  let replies := flat_map (fun p => flat_map sop_payloads (fst (frame_sops (fst p) (snd p)))) per_frame in
+  let clean := forallb (fun b => b =? 0) budgets && forallb (fun b => b) arms &&
+               forallb (fun p => negb (has_panic (snd p))) per_frame &&
+               forallb (fun d => N.of_nat (length d) <=? max_msg_size) replies &&
+               match junk with [] => true | _ => false end in
+  is_subseq fs replies &&
+  (negb clean || (list_eqb bytes_eqb fs replies && match rest with [] => true | _ => false end)).
+
+Definition connio_of (c : connrec) : connio :=
+  match c with
+  | CR reused frames junk scripts reads budgets arms _ =>
+      mkConnio reused (conn_input frames junk) (map N.to_nat reads) (conn_scripts scripts) (map budget_of budgets) arms
+  end.
+Definition connrec_writes (c : connrec) : list (list byte) :=
+  match c with CR _ _ _ _ _ _ _ writes => map unrle writes end.
+
 (* ------------------------------------------------------------------ check_case *)
 Definition check_case (c : case) : bool :=
   match c with
@@ -181,17 +213,21 @@ Definition check_case (c : case) : bool :=
       let '(st, _) := conn_loop (S (length input)) (N.to_nat tcp_drain_size) (N.to_nat tcp_fill_size)
                                 (conn_scripts scripts) f0 st0 [] in
       list_eqb bytes_eqb (rev (k_out (t_conn st))) (map unrle writes)
+  | CaseConnSeq conns =>
+      list_eqb (list_eqb bytes_eqb)
+               (conn_seq (N.to_nat tcp_drain_size) (N.to_nat tcp_fill_size) (s_init [] []) (map connio_of conns))
+               (map connrec_writes conns)
   | CaseWriter ops obs =>
       let wops := map (fun o => match fst o with Some t => WReset t | None => WWrite (unrle (snd o)) end) ops in
       (* a chain that has never been bound has no transport: the first operation is a Reset *)
       let '(_, es) := w_run (mkWriter 0 writer_reset_size) wops in
       list_eqb opt_emit_eqb es obs
-  | CaseShare rid body ids shared got distinct =>
-      (* every waiter runs to completion, one after the other (the schedule is irrelevant:
-         Proofs_Share.shared_lookup_isolated) *)
+  | CaseShare rid body ids shared edits got distinct =>
+      (* every waiter runs to completion and edits its message, one after the other (the
+         schedule is irrelevant: shared_lookup_private) *)
       let n := length ids in
-      let sched := flat_map (fun i => [i; i]) (seq 0 n) in
-      let s := l_run 0 shared (l_init (mkMsg rid (unrle body)) ids) sched in
+      let sched := flat_map (fun i => [LGo i; LGo i; LEdit i (unrle (nth i edits []))]) (seq 0 n) in
+      let s := l_run2 0 shared (l_init (mkMsg rid (unrle body)) ids) sched in
       let ps := all_waiters_done s in
       list_eqb (fun p g => match p with
                            | Some q => match nth_error (l_heap s) q with
@@ -220,17 +256,12 @@ Definition spec_case (c : case) : bool :=
   | CaseConn frames junk scripts reads budgets arms writes =>
       (* what the client reads parses into whole frames that are, in order, replies to its
          queries in query order; when nothing failed and nothing was refused, all of them *)
-      let wire := concat (map unrle writes) in
-      let '(fs, rest) := parse_stream wire in
-      let scs := conn_scripts scripts in
-      let per_frame := map (fun r => let rx := unrle r in (rx, script_of scs rx)) frames in
-      let replies := flat_map (fun p => flat_map sop_payloads (fst (frame_sops (fst p) (snd p)))) per_frame in
-      let clean := forallb (fun b => b =? 0) budgets && forallb (fun b => b) arms &&
-                   forallb (fun p => negb (has_panic (snd p))) per_frame &&
-                   forallb (fun d => N.of_nat (length d) <=? max_msg_size) replies &&
-                   match junk with [] => true | _ => false end in
-      is_subseq fs replies &&
-      (negb clean || (list_eqb bytes_eqb fs replies && match rest with [] => true | _ => false end))
+      conn_spec frames junk scripts budgets arms writes
+  | CaseConnSeq conns =>
+      (* ... and so for every connection of a sequence, whatever was served before it on the
+         same engine: nothing of an earlier connection's replies shows up in a later one *)
+      forallb (fun c => match c with CR _ frames junk scripts _ budgets arms writes =>
+                          conn_spec frames junk scripts budgets arms writes end) conns
   | CaseWriter ops obs =>
       (* every emission goes to the transport of the latest Reset before it, carries the bytes
          of that very write, and the first write after a Reset always gets through *)
@@ -250,8 +281,10 @@ Definition spec_case (c : case) : bool :=
         | _, _ => false
         end in
       go None false ops obs
-  | CaseShare rid body ids shared got distinct =>
-      (* each waiter got the result's content under its own ID; distinct objects when shared *)
-      list_eqb (fun id g => (id =? fst g) && bytes_eqb (unrle body) (unrle (snd g))) ids got &&
+  | CaseShare rid body ids shared edits got distinct =>
+      (* each waiter holds the result's content under its own ID followed by what ITS caller
+         appended and nothing else; distinct objects when shared *)
+      list_eqb (fun ie g => (fst ie =? fst g) && bytes_eqb (unrle body ++ unrle (snd ie)) (unrle (snd g)))
+               (combine ids (edits ++ repeat [] (length ids - length edits))) got &&
       (distinct || (length ids <=? 1)%nat)
   end.
